@@ -62,6 +62,7 @@ Theorem C17_text_outcomes : forall order ignore rules infos filtered terminals e
   | PTree _ | PUnexpectedCharacters | PUnexpectedToken | PBroken => True
   end.
 Proof. intros. destruct (parse_text _ _ _ _ _ _ _ _ _); exact I. Qed.
+Print Assumptions C17_text_outcomes.
 
 (* (class)+ -- the shape of the SYMBOL, WS and digit terminals, checked on the regenerated expressions at every run
    (symbol_shape) -- takes the longest run of class characters: a symbol is one token however long it is *)
